@@ -11,8 +11,8 @@ from .. import kani
 
 PROP = 'C05'
 DEPS = 'wow_srp = { version = "0.7", default-features = false, features = ["srp-default-math", "tbc-header", "wrath-header"] }'
-HARNESSES_QUICK = [('vanilla_step', 600), ('tbc_step', 600), ('wrath_keystream_step_len5', 1500)]
-HARNESSES_THOROUGH = [('vanilla_step', 600), ('tbc_step', 600), ('wrath_keystream_step', 6000)]
+HARNESSES_QUICK = [('vanilla_step', 600), ('tbc_step', 600)]
+HARNESSES_THOROUGH = [('vanilla_step', 600), ('tbc_step', 600), ('wrath_keystream_step_len5', 1800), ('wrath_keystream_step', 6000)]
 
 
 def run(tier, only=None):
